@@ -238,7 +238,21 @@ def plan(S, prop, mode, tier, avoid):
         flat.append(callers[c][idx[c]])
         idx[c] += 1
         live = [k for k in live if idx[k] < len(callers[k])]
-    return {"cfg": {"hdr": hdr, "distorted": distorted}, "ops": flat}
+    out = {"cfg": {"hdr": hdr, "distorted": distorted}, "ops": flat}
+    by = S.py("bystander")
+    if chance(by, 0.35):
+        # other WCS objects (other headers, usually of the same distortion family) are created and used while
+        # the object under test is alive -- one object per CCD is ordinary use.  They must not disturb it.
+        hdr2 = draw_header(by)
+        if chance(by, 0.7) and hdr2["ctype1"] != hdr["ctype1"]:
+            for _ in range(6):
+                hdr2 = draw_header(by)
+                if hdr2["ctype1"] == hdr["ctype1"]:
+                    break
+        out["cfg"]["hdr2"] = hdr2
+        for _ in range(by.randrange(1, 3)):
+            flat.insert(by.randrange(0, len(flat) + 1), {"k": "bystander", "c": 9, "use": pick(by, ["i2s", "nofind", "find", "none"])})
+    return out
 
 
 def describe(script):
@@ -308,6 +322,7 @@ def execute(script, run, env):
     prev_c = None
     nofind_err = []
     undist_err = []
+    bystanders = []
     for i, op in enumerate(script["ops"]):
         run.step = i
         c = op.get("c", 0)
@@ -354,6 +369,29 @@ def execute(script, run, env):
                              % (what, H.ncalls - 1, H.last, _short(got), _short(ref)))
             return got
 
+        if k == "bystander":
+            hdr2 = cfg.get("hdr2")
+            if hdr2 is None:
+                run.event(c, "bystander", "", "skipped(no second header)")
+                continue
+            try:
+                with warnings.catch_warnings():
+                    warnings.simplefilter("ignore")
+                    with np.errstate(all="ignore"):
+                        b = H.W(dict(hdr2))
+                        bystanders.append(b)
+                        cx, cy = hdr2["naxis1"] / 2.0, hdr2["naxis2"] / 2.0
+                        if op.get("use") != "none":
+                            lo, la = b.image2sky(cx, cy)
+                            if op.get("use") == "nofind":
+                                b.sky2image(lo, la, find=False)
+                            elif op.get("use") == "find":
+                                b.sky2image(lo, la)
+                run.event(c, "bystander", op.get("use", ""), "ok")
+            except Exception as e:
+                run.event(c, "bystander", op.get("use", ""), "error(%s)" % type(e).__name__)
+            run.fault("another_wcs_object_created_and_used")
+            continue
         if k in ("i2s", "rt", "jac"):
             shape = op["shape"]
             x, y = _args(op["pts"], shape)
